@@ -159,6 +159,14 @@ pub fn ref_rle_decode(buf: &[u8], cap: usize) -> Option<Vec<u8>> {
 }
 
 impl NetInner {
+    /// number of receive calls `me` has made so far
+    pub fn recv_calls(&self, me: Addr) -> u64 {
+        self.recv_log.get(&me).map(|l| l.len() as u64).unwrap_or(0)
+    }
+    /// did any packet reach `me` in a receive call with index in `from..to`?
+    pub fn delivered_in_calls(&self, me: Addr, from: u64, to: u64) -> bool {
+        self.links.iter().any(|((_, t), l)| *t == me && l.ledger.delivery_calls.iter().rev().take_while(|c| **c >= from).any(|c| *c < to))
+    }
     pub fn new(seed: u64, default_profile: LinkProfile) -> Self {
         NetInner {
             seed,
